@@ -298,7 +298,9 @@ func mercurySelector(route string, so int) *gtfsrt.EntitySelector {
 var c17Prefixes = []string{"lmm:planned_work:123", "lmm:alert:456", "other:789"}
 
 func c17MercuryEntity(c *Ctx, s mercurySpec) *gtfsrt.FeedEntity {
-	a := &gtfsrt.Alert{HeaderText: &gtfsrt.TranslatedString{Translation: []*gtfsrt.TranslatedString_Translation{{Text: sp("service change")}}}}
+	a := &gtfsrt.Alert{HeaderText: &gtfsrt.TranslatedString{Translation: []*gtfsrt.TranslatedString_Translation{{Text: sp("service change")}}},
+		// a description whose first translation has no language (the field is optional) next to one that has
+		DescriptionText: &gtfsrt.TranslatedString{Translation: []*gtfsrt.TranslatedString_Translation{{Text: sp("details")}, {Text: sp("details (html)"), Language: sp("en-html")}}}}
 	a.InformedEntity = append(a.InformedEntity, mercurySelector("A", s.prio1))
 	if s.prio2 != -2 {
 		a.InformedEntity = append(a.InformedEntity, mercurySelector("C", s.prio2))
